@@ -148,6 +148,7 @@ func init() {
 			{Name: "edges", Run: edgeUnit("newick")},
 			{Name: "fieldlens", TShards: 2, Run: lengthUnit("newick")},
 			{Name: "parallel", Race: true, Run: codecParallel("newick")},
+			{Name: "histories", Run: codecHistories("newick")},
 		},
 	})
 }
